@@ -188,6 +188,9 @@ class C04(Monitor):
     def on_step(self, st):
         w, acc = self.w, self.acc
         op = st.op
+        if op["kind"] == "withdraw_via_token":
+            self.via_token(st)
+            return
         if op["kind"] != "withdraw":
             return
         p, a, holder = op["sem"]["pair"], op["sem"]["amount"], op["actor"]
@@ -236,6 +239,32 @@ class C04(Monitor):
         elif len(acc.samples) < acc.max_samples:
             acc.sample({"pair_kind": p.kind(), "reserves": [str(r0), str(r1)], "supply": str(S), "burn": str(a),
                         "paid": [str(v) for v in x]})
+
+
+    def via_token(self, st):
+        """withdraw_liquidity delivered by a cw20 other than the LP token: whatever the outcome, no LP may be burnt that the
+        caller did not give up, and nobody may be paid out of the reserves"""
+        w, acc = self.w, self.acc
+        op = st.op
+        p, a, tok, actor = op["sem"]["pair"], op["sem"]["amount"], op["sem"]["token"], op["actor"]
+        acc.ev()
+        acc.cls("via_token", p.kind(), "pairtok" if tok in p.assets else "foreign", st.res["r"],
+                "parked" if st.pre.get(p.addr, p.lp) >= a else "noparked")
+        acc.count("withdraw_via_other_token_" + st.res["r"])
+        if not st.ok:
+            return
+        probs = []
+        dS = st.post.supply[p.lp] - st.pre.supply[p.lp]
+        dlp = st.post.get(actor, p.lp) - st.pre.get(actor, p.lp)
+        if dS != dlp:
+            probs.append("LP supply changed by %d while the caller's LP balance changed by %d" % (dS, dlp))
+        for i, asset in enumerate(p.assets):
+            gain = st.post.get(actor, asset[1]) - st.pre.get(actor, asset[1]) + (a if asset == tok else 0)
+            if gain > 0:
+                probs.append("caller was paid %d of asset %d without redeeming LP of its own" % (gain, i))
+        if probs:
+            acc.violation("withdraw hook delivered by %s (not the LP token of %s) was accepted: %s" % (tok[1], p.addr, "; ".join(probs)),
+                          case_of(w, st))
 
 
 class C05(Monitor):
@@ -515,6 +544,9 @@ class C06(Monitor):
     def on_step(self, st):
         w, acc = self.w, self.acc
         op = st.op
+        if op["kind"] == "swap" and st.ok and op["sem"]["named"] not in op["sem"]["pair"].assets:
+            self.outside_offer(st)
+            return
         if op["kind"] != "swap" or not C12.same_offer(op):
             return
         sem = op["sem"]
@@ -546,6 +578,34 @@ class C06(Monitor):
                 acc.cls("exec", p.kind(), sem["entry"], bucket(x), bucket(a))
                 if probs:
                     acc.violation("swap on %s x=%d y=%d a=%d: %s" % (p.addr, x, y, a, "; ".join(probs)), case_of(w, st))
+
+
+    def outside_offer(self, st):
+        """a swap message naming an asset the pair does not trade was ACCEPTED: judged like every other swap, against the
+        pair's actual holdings x of the named asset and y of the asset it paid out (the unchanged code rejects them all)"""
+        w, acc = self.w, self.acc
+        op, sem = st.op, st.op["sem"]
+        p = sem["pair"]
+        named, a = sem["named"], sem["named_amt"]
+        evs = [e for e in attr_events(st.res) if e.get("action") == "swap" and e.get("_contract_addr") == p.addr]
+        acc.ev()
+        acc.count("sys_outside_offers_accepted")
+        key = w.denom_key(named[1]) if named[0] == "n" else named[1]
+        x = st.pre.get(p.addr, key)
+        probs = []
+        if len(evs) != 1:
+            probs.append("no single swap event")
+        else:
+            n, sp, cm = int(evs[0]["return_amount"]), int(evs[0]["spread_amount"]), int(evs[0]["commission_amount"])
+            r = p.reserves(st.pre)
+            paid = [j for j in (0, 1) if st.post.get(p.addr, p.assets[j][1]) < st.pre.get(p.addr, p.assets[j][1])] or [0, 1]
+            for j in paid:
+                probs += band_problems(x, r[j], a, p.rate, n, sp, cm)
+            if x == 0 and not probs:
+                probs.append("priced against an offer reserve the pair does not hold")
+        if probs:
+            acc.violation("swap of %s (not an asset of %s, which held %d of it) was accepted: %s" % (named[1], p.addr, x, "; ".join(probs[:3])),
+                          case_of(w, st))
 
 
 class C12(Monitor):
